@@ -9,6 +9,11 @@ def hook_commits():
     return [l.split()[0] for l in out.splitlines() if " verif-hooks:" in " " + l.split(" ", 1)[1]]
 
 CHECKS = {
+  "C01": (True, "exploration",
+          "proptest-driven generated (pattern, flags, pattern-directed haystack) cases; differential oracle = regex crate applied per line; metamorphic fast-path vs slow-path vs reader vs CLI",
+          "Tens of thousands of generated pattern sets with all flag combinations of the property and haystacks sampled from each pattern's language (then mutated, with CR/NUL/invalid UTF-8/empty/unterminated lines) are searched four ways in-process plus a sample through the real rg binary; each line's verdict is compared with the regex crate run on that line alone. Random exploration with shrinking; no exhaustiveness claim.",
+          "Shares the regex engine with ripgrep (trusted: matching one small haystack); haystack anchors excluded as the property says; CRLF lines with a bare CR only asserted when both readings agree; one known finding rooted in regex-automata is tolerated by exact signature.",
+          "DESIGN.md section 3 C01"),
   # id: (implemented, category, technique, level text, level note, design ref)
   "C03": (True, "exploration",
           "exhaustive small-scope enumeration + proptest-driven random cases against a reference model (LineModel)",
